@@ -78,6 +78,13 @@ Proof.
     + rewrite E. destruct (fold_left (fstep t) files None); reflexivity.
 Qed.
 
+Corollary wild_is_gnu_note files isa :
+  well_formed files -> unmerged_zero files = [] ->
+  wild_merge files isa =
+    if forallb (fun p => match class_of (fst p) with Some _ => true | None => false end) (concat files)
+    then Some (gnu_note files isa) else None.
+Proof. intros Hwf Hz. rewrite (wild_is_spec files isa Hwf). unfold gnu_note. rewrite Hz. reflexivity. Qed.
+
 (* ---- the stack ---- *)
 Definition some_missing (notes : list (option bool)) : bool := existsb (fun n => match n with None => true | _ => false end) notes.
 Definition some_present (notes : list (option bool)) : bool := existsb (fun n => match n with Some _ => true | _ => false end) notes.
